@@ -86,11 +86,26 @@ def run(ctx):
         ss = [gen.series_nd(rng, m, nd, kind) if nd else gen.series(rng, m, kind) for m in lens]
         t = rng.choice([n0, rng.randint(1, 7)])
         c = gen.series_nd(rng, t, nd, kind) if nd else gen.series(rng, t, kind)
+        if nd and rng.random() < 0.12:
+            # one channel with a large common offset (timestamps, map coordinates): differences stay of order one
+            off_ = rng.choice([1.7e9, 3.0e8, 5.0e6])
+            ss = [[[p_[0] + off_] + list(p_[1:]) for p_ in s_] for s_ in ss]
+            c = [[p_[0] + off_] + list(p_[1:]) for p_ in c]
+            ctx.count("collections_with_large_offset")
         sel = [rng.random() < 0.7 for _ in range(n)]
         if not any(sel):
             sel[rng.randrange(n)] = True
         if rng.random() < 0.3:
             sel = [True] * n
+        if n >= 16 and rng.random() < 0.6:
+            # structured masks of a large collection: a few clusters' worth of selected series, whole bytes unselected
+            sel = [False] * n
+            lo_ = rng.choice([0, 8, 8, 16]) if n > 16 else 8
+            for i_ in range(lo_, n):
+                sel[i_] = rng.random() < rng.choice([0.15, 0.5, 1.0])
+            if not any(sel):
+                sel[n - 1] = True
+            ctx.count("masks_with_unselected_bytes")
         kw = {}
         if rng.random() < 0.5:
             kw["window"] = rng.randint(1, 8)
